@@ -1,5 +1,6 @@
 (** * Proofs/Cascade: the priority cascade of the resolver against the provider
-    classes of Spec/Pytest (any depth, any number of definitions). *)
+    classes of Spec/Pytest — any depth, any number of definitions, with or without
+    an excluded definition (the self-named parameter of C02). *)
 From PLS Require Import Check.C01 Proofs.Basics.
 From Coq Require Import Lia.
 
@@ -8,10 +9,12 @@ Section Cascade.
   Variable roots : list path.
   Variable s : index.
   Variable n : string.
+  Variable ex : option fdef.
 
   Notation dn := (defs_named s n).
   Notation allowed_in := (allowed_in s n).
   Notation class_empty := (class_empty s n).
+  Notation flt := (flt_of ex).
 
   Lemma class_empty_true C : class_empty C = true <-> forall d, In d dn -> C d = false.
   Proof.
@@ -39,63 +42,70 @@ Section Cascade.
     rewrite allowed_in_skip by (apply H; now left). apply IH; intros; apply H; now right.
   Qed.
 
-  Lemma allowed_in_app_skip cs1 cs2 r :
-    (forall C, In C cs1 -> class_empty C = true) -> allowed_in (cs1 ++ cs2) r = allowed_in cs2 r.
+  Lemma without_flt C d : without ex C d = C d && flt d.
+  Proof. reflexivity. Qed.
+
+  (** ** one module: the last binding *)
+  Lemma last_binding_own_last m :
+    last_binding flt dn m = match own_last s m n with
+                            | Some d => if flt d then Some d else None
+                            | None => None
+                            end.
+  Proof. reflexivity. Qed.
+
+  Lemma last_binding_some m d :
+    last_binding flt dn m = Some d ->
+    without ex (same_file_class s m n) d = true /\ In d dn.
   Proof.
-    induction cs1 as [|C cs1 IH]; intros H; [reflexivity|]. cbn [app].
-    rewrite allowed_in_skip by (apply H; now left). apply IH; intros; apply H; now right.
+    rewrite last_binding_own_last. destruct (own_last s m n) as [d0|] eqn:Eo; [|discriminate].
+    destruct (flt d0) eqn:Ef; [|discriminate]. intros [= <-].
+    rewrite without_flt, Ef. unfold same_file_class. rewrite Eo, fdef_eqb_refl. split; [reflexivity|].
+    apply max_by_key_in in Eo. unfold defs_in in Eo. apply filter_In in Eo. tauto.
   Qed.
 
-  (** defs_in is the same-file filter of the cascade *)
-  Lemma defs_in_filter F :
-    filter (fun d => path_eqb (d_file d) F && true) dn = defs_in s F n.
-  Proof. unfold defs_in. apply filter_ext. intros d. now rewrite andb_true_r. Qed.
-
-  Lemma own_last_class F d : own_last s F n = Some d -> same_file_class s F n d = true /\ In d dn.
+  Lemma last_binding_none m :
+    last_binding flt dn m = None -> class_empty (without ex (same_file_class s m n)) = true.
   Proof.
-    intros H. unfold same_file_class. rewrite H. split; [apply fdef_eqb_refl|].
-    apply max_by_key_in in H. unfold defs_in in H. apply filter_In in H. tauto.
+    rewrite last_binding_own_last. intros H. apply class_empty_true. intros d Hd.
+    rewrite without_flt. unfold same_file_class.
+    destruct (own_last s m n) as [d0|]; [|reflexivity].
+    destruct (fdef_eqb d d0) eqn:E; [|reflexivity]. apply fdef_eqb_eq in E; subst d0.
+    destruct (flt d); [discriminate|reflexivity].
   Qed.
-
-  Lemma own_last_none_class_empty F : own_last s F n = None -> class_empty (same_file_class s F n) = true.
-  Proof. intros H. apply class_empty_true. intros d _. unfold same_file_class. now rewrite H. Qed.
 
   (** ** the conftest walk.  [imports_complete dir]: when the spec finds a module that
       supplies [n] to the conftest of [dir], the resolver's imported-name set of that
-      conftest contains [n] (the soundness direction of the import closure; see
-      Properties/C14). *)
+      conftest contains [n] (the soundness half of the import closure; C14). *)
   Definition imports_complete (dir : path) : Prop :=
     forall d, In d dn -> import_class dk roots s (conftest_py :: dir) n d = true ->
               is_imported dk roots s n (conftest_py :: dir) = true.
 
-  Notation flt := (fun _ : fdef => true).
-
   Lemma conftest_step_none_empty dir :
     imports_complete dir ->
     conftest_step dk roots s flt dn n dir = None ->
-    class_empty (conftest_class dk roots s dir n) = true.
+    class_empty (without ex (conftest_class dk roots s dir n)) = true.
   Proof.
-    intros Himp H. unfold conftest_step in H. rewrite defs_in_filter in H.
-    fold (own_last s (conftest_py :: dir) n) in H.
-    destruct (own_last s (conftest_py :: dir) n) as [d0|] eqn:Eo; [discriminate|].
-    apply class_empty_true. intros d Hd. unfold conftest_class.
+    intros Himp H. unfold conftest_step in H.
+    destruct (last_binding flt dn (conftest_py :: dir)) as [d0|] eqn:El; [discriminate|].
+    pose proof (last_binding_none _ El) as Hown.
+    apply class_empty_true. intros d Hd. rewrite without_flt. unfold conftest_class.
+    destruct (flt d) eqn:Ef; [|apply andb_false_r]. rewrite andb_true_r.
     apply orb_false_iff; split.
-    - unfold same_file_class. now rewrite Eo.
+    - pose proof (proj1 (class_empty_true _) Hown d Hd) as X. rewrite without_flt, Ef, andb_true_r in X. exact X.
     - destruct (import_class dk roots s (conftest_py :: dir) n d) eqn:Ei; [|reflexivity]. exfalso.
       pose proof (Himp d Hd Ei) as Him.
       unfold import_class in Ei. apply andb_prop in Ei as [Ek _].
       rewrite Ek, Him in H. cbn in H.
-      destruct dn as [|x l]; [destruct Hd|]. cbn in H. discriminate.
+      pose proof (find_none _ _ H d Hd) as X. cbn beta in X. congruence.
   Qed.
 
   Lemma walk dirs rest :
     (forall dir, In dir dirs -> imports_complete dir) ->
     (forall dir d, stop_at dk roots s flt n dirs = Some (dir, d) ->
-                   path_eqb (d_file d) (conftest_py :: dir) = false ->
                    conftest_class dk roots s dir n d = true) ->
     match first_some (conftest_step dk roots s flt dn n) dirs with
-    | Some d => allowed_in (map (fun dir => conftest_class dk roots s dir n) dirs ++ rest) (Some d) = true
-    | None => forall r, allowed_in (map (fun dir => conftest_class dk roots s dir n) dirs ++ rest) r
+    | Some d => allowed_in (map (without ex) (map (fun dir => conftest_class dk roots s dir n) dirs) ++ rest) (Some d) = true
+    | None => forall r, allowed_in (map (without ex) (map (fun dir => conftest_class dk roots s dir n) dirs) ++ rest) r
                         = allowed_in rest r
     end.
   Proof.
@@ -104,28 +114,22 @@ Section Cascade.
     - (* the walk stops here *)
       assert (Hstop : stop_at dk roots s flt n (dir :: dirs) = Some (dir, d)).
       { unfold stop_at; cbn [first_some]. now rewrite Es. }
-      unfold conftest_step in Es. rewrite defs_in_filter in Es.
-      fold (own_last s (conftest_py :: dir) n) in Es.
-      destruct (own_last s (conftest_py :: dir) n) as [d0|] eqn:Eo.
-      + injection Es as <-. destruct (own_last_class _ _ Eo) as [Hc Hd].
-        apply allowed_in_hit; [|exact Hd]. unfold conftest_class. now rewrite Hc.
-      + destruct ((disk_file dk (conftest_py :: dir) || in_cache s (conftest_py :: dir))
-                  && is_imported dk roots s n (conftest_py :: dir)); [|discriminate].
-        apply find_some in Es as [Hd _].
-        apply allowed_in_hit; [|exact Hd].
-        apply (HK dir d Hstop).
-        (* d is not in this conftest: the conftest has no definition of n *)
-        apply path_eqb_neq. intros Hf.
-        apply max_by_key_none in Eo. unfold defs_in in Eo.
-        assert (Hin : In d (filter (fun d0 => path_eqb (d_file d0) (conftest_py :: dir)) dn)).
-        { apply filter_In. split; [exact Hd|]. rewrite Hf. apply path_eqb_refl. }
-        rewrite Eo in Hin. destruct Hin.
+      pose proof (HK dir d Hstop) as Hclass.
+      assert (Hd : In d dn /\ flt d = true).
+      { unfold conftest_step in Es.
+        destruct (last_binding flt dn (conftest_py :: dir)) as [d0|] eqn:El.
+        - injection Es as <-. destruct (last_binding_some _ _ El) as [Hw Hin]. split; [exact Hin|].
+          rewrite without_flt in Hw. apply andb_prop in Hw. tauto.
+        - destruct ((disk_file dk (conftest_py :: dir) || in_cache s (conftest_py :: dir))
+                    && is_imported dk roots s n (conftest_py :: dir)); [|discriminate].
+          apply find_some in Es. exact Es. }
+      destruct Hd as [Hin Hf].
+      apply allowed_in_hit; [|exact Hin]. now rewrite without_flt, Hclass, Hf.
     - (* nothing here: the class is empty, go on *)
-      assert (He : class_empty (conftest_class dk roots s dir n) = true).
+      assert (He : class_empty (without ex (conftest_class dk roots s dir n)) = true).
       { apply conftest_step_none_empty; [apply Himp; now left|exact Es]. }
       assert (IH' := IH (fun d H => Himp d (or_intror H))).
       assert (HK' : forall dir0 d, stop_at dk roots s flt n dirs = Some (dir0, d) ->
-                                   path_eqb (d_file d) (conftest_py :: dir0) = false ->
                                    conftest_class dk roots s dir0 n d = true).
       { intros dir0 d Hs. apply HK. unfold stop_at in *; cbn [first_some]. now rewrite Es. }
       specialize (IH' HK').
@@ -135,47 +139,38 @@ Section Cascade.
   Qed.
 
   (** ** the whole cascade *)
-  Theorem closest_allowed_in F :
+  Theorem closest_with_allowed_in F :
     (forall dir, In dir (ancestors (tl F)) -> imports_complete dir) ->
-    K_import_provenance dk roots s None F n = false ->
+    K_import_provenance dk roots s ex F n = false ->
     F <> [] ->
-    allowed_in (providers dk roots s F n) (closest dk roots s F n) = true.
+    allowed_in (map (without ex) (providers dk roots s F n)) (closest_with dk roots s flt F n) = true.
   Proof.
-    intros Himp HK HF. unfold closest, closest_with, providers.
+    intros Himp HK HF. unfold closest_with, providers.
     destruct dn as [|x0 l0] eqn:Edn.
-    { (* the name is unknown: every class is empty *)
-      apply allowed_in_all_empty. intros C _. apply class_empty_true. rewrite Edn. intros d []. }
-    rewrite <- Edn. rewrite defs_in_filter. fold (own_last s F n).
-    destruct (own_last s F n) as [d|] eqn:Eo.
-    { destruct (own_last_class _ _ Eo) as [Hc Hd]. now apply allowed_in_hit. }
-    rewrite allowed_in_skip by (now apply own_last_none_class_empty).
+    { apply allowed_in_all_empty. intros C _. apply class_empty_true. rewrite Edn. intros d []. }
+    rewrite <- Edn. cbn [map].
+    destruct (last_binding flt dn F) as [d|] eqn:El.
+    { destruct (last_binding_some _ _ El) as [Hc Hd]. now apply allowed_in_hit. }
+    rewrite allowed_in_skip by (now apply last_binding_none).
     destruct F as [|f dir]; [contradiction|]. cbn [tl] in *.
-    (* K-freedom, phrased on the walk *)
     assert (HK' : forall dir0 d, stop_at dk roots s flt n (ancestors dir) = Some (dir0, d) ->
-                                 path_eqb (d_file d) (conftest_py :: dir0) = false ->
                                  conftest_class dk roots s dir0 n d = true).
-    { intros dir0 d Hs Hf. unfold K_import_provenance, import_stop in HK. cbn [tl] in HK.
-      assert (Hflt : forall d0 : fdef, (path_eqb (d_file d0) (f :: dir) && true) =
-                                       (fun d1 => path_eqb (d_file d1) (f :: dir) && true) d0) by reflexivity.
-      rewrite defs_in_filter in HK. fold (own_last s (f :: dir) n) in HK. rewrite Eo in HK.
-      rewrite Hs in HK. rewrite Hf in HK. cbn in HK. now apply negb_false_iff in HK. }
-    pose proof (walk (ancestors dir) [plugin_class; third_class] Himp HK') as W.
+    { intros dir0 d Hs. unfold K_import_provenance, import_stop in HK. cbn [tl] in HK.
+      rewrite El, Hs in HK. now apply negb_false_iff in HK. }
+    rewrite map_app.
+    pose proof (walk (ancestors dir) (map (without ex) [plugin_class; third_class]) Himp HK') as W.
     destruct (first_some (conftest_step dk roots s flt dn n) (ancestors dir)) as [d|]; [exact W|].
-    rewrite W.
+    rewrite W. cbn [map].
     (* plugin, then third party *)
-    destruct (find (fun d => d_plugin d && negb (d_third d) && true) dn) as [d|] eqn:Ep.
-    { apply find_some in Ep as [Hd Hp]. rewrite andb_true_r in Hp. now apply allowed_in_hit. }
-    assert (Hpe : class_empty plugin_class = true).
-    { apply class_empty_true. intros d Hd. destruct (plugin_class d) eqn:E; [|reflexivity].
-      pose proof (find_none _ _ Ep d Hd) as Hn. cbn beta in Hn. unfold plugin_class in E.
-      rewrite E in Hn. discriminate. }
+    destruct (find (fun d => d_plugin d && negb (d_third d) && flt d) dn) as [d|] eqn:Ep.
+    { apply find_some in Ep as [Hd Hp]. now apply allowed_in_hit. }
+    assert (Hpe : class_empty (without ex plugin_class) = true).
+    { apply class_empty_true. intros d Hd. exact (find_none _ _ Ep d Hd). }
     rewrite allowed_in_skip by exact Hpe.
-    destruct (find (fun d => d_third d && true) dn) as [d|] eqn:Et.
-    { apply find_some in Et as [Hd Ht]. rewrite andb_true_r in Ht. now apply allowed_in_hit. }
-    assert (Hte : class_empty third_class = true).
-    { apply class_empty_true. intros d Hd. destruct (third_class d) eqn:E; [|reflexivity].
-      pose proof (find_none _ _ Et d Hd) as Hn. cbn beta in Hn. unfold third_class in E.
-      rewrite E in Hn. discriminate. }
+    destruct (find (fun d => d_third d && flt d) dn) as [d|] eqn:Et.
+    { apply find_some in Et as [Hd Ht]. now apply allowed_in_hit. }
+    assert (Hte : class_empty (without ex third_class) = true).
+    { apply class_empty_true. intros d Hd. exact (find_none _ _ Et d Hd). }
     rewrite allowed_in_skip by exact Hte. reflexivity.
   Qed.
 End Cascade.
@@ -186,19 +181,6 @@ Section Allowed.
   Variable roots : list path.
   Variable s : index.
   Variable n : string.
-
-  Lemma allowed_in_ext cs cs' r :
-    Forall2 (fun C C' => forall d, C d = C' d) cs cs' -> allowed_in s n cs r = allowed_in s n cs' r.
-  Proof.
-    induction 1 as [|C C' cs cs' HC _ IH]; [reflexivity|]. cbn.
-    assert (E : class_empty s n C = class_empty s n C').
-    { unfold class_empty. f_equal. induction (defs_named s n) as [|x l IHl]; cbn; [reflexivity|].
-      now rewrite HC, IHl. }
-    rewrite E, IH. destruct (class_empty s n C'); [reflexivity|]. destruct r; [|reflexivity]. now rewrite HC.
-  Qed.
-
-  Lemma without_none cs : Forall2 (fun C C' => forall d : fdef, C d = C' d) (map (without None) cs) cs.
-  Proof. induction cs as [|C cs IH]; cbn; constructor; [|exact IH]. intros d. unfold without. apply andb_true_r. Qed.
 
   Lemma allowed_in_some_member cs d :
     allowed_in s n cs (Some d) = true -> exists C, In C cs /\ C d = true /\ In d (defs_named s n).
@@ -218,14 +200,37 @@ Section Allowed.
     intros H C' [<-|Hi]; [exact E|now apply IH].
   Qed.
 
+  Theorem closest_with_allowed ex F :
+    F <> [] ->
+    (forall dir, In dir (ancestors (tl F)) -> imports_complete dk roots s n dir) ->
+    K_import_provenance dk roots s ex F n = false ->
+    allowed_ex dk roots s ex F n (closest_with dk roots s (flt_of ex) F n) = true.
+  Proof.
+    intros HF Himp HK. unfold allowed_ex. apply orb_true_iff; left. now apply closest_with_allowed_in.
+  Qed.
+
   Theorem closest_allowed F :
     F <> [] ->
     (forall dir, In dir (ancestors (tl F)) -> imports_complete dk roots s n dir) ->
     K_import_provenance dk roots s None F n = false ->
     allowed dk roots s F n (closest dk roots s F n) = true.
+  Proof. exact (closest_with_allowed None F). Qed.
+
+  Lemma without_member ex C d : without ex C d = true -> C d = true /\ flt_of ex d = true.
+  Proof. unfold without, flt_of. intros H. apply andb_prop in H. exact H. Qed.
+
+  Theorem closest_with_visible ex F d :
+    F <> [] ->
+    (forall dir, In dir (ancestors (tl F)) -> imports_complete dk roots s n dir) ->
+    K_import_provenance dk roots s ex F n = false ->
+    closest_with dk roots s (flt_of ex) F n = Some d ->
+    visible dk roots s F n d = true /\ In d (defs_named s n) /\ flt_of ex d = true.
   Proof.
-    intros HF Himp HK. unfold allowed, allowed_ex. apply orb_true_iff; left.
-    rewrite (allowed_in_ext _ _ _ (without_none _)). now apply closest_allowed_in.
+    intros HF Himp HK E. pose proof (closest_with_allowed_in dk roots s n ex F Himp HK HF) as A. rewrite E in A.
+    apply allowed_in_some_member in A as [C [Hi [Hc Hd]]].
+    apply in_map_iff in Hi as [C0 [<- Hi0]]. apply without_member in Hc as [Hc Hf].
+    split; [|split; [exact Hd|exact Hf]].
+    unfold visible. apply orb_true_iff; left. apply existsb_exists. eauto.
   Qed.
 
   Theorem closest_visible F d :
@@ -234,9 +239,7 @@ Section Allowed.
     K_import_provenance dk roots s None F n = false ->
     closest dk roots s F n = Some d -> visible dk roots s F n d = true /\ In d (defs_named s n).
   Proof.
-    intros HF Himp HK E. pose proof (closest_allowed_in dk roots s n F Himp HK HF) as A. rewrite E in A.
-    apply allowed_in_some_member in A as [C [Hi [Hc Hd]]]. split; [|exact Hd].
-    unfold visible. apply orb_true_iff; left. apply existsb_exists. eauto.
+    intros HF Himp HK E. destruct (closest_with_visible None F d HF Himp HK E) as [A [B _]]. tauto.
   Qed.
 
   Theorem closest_none_invisible F d :
@@ -246,10 +249,46 @@ Section Allowed.
     closest dk roots s F n = None -> In d (defs_named s n) ->
     existsb (fun C => C d) (providers dk roots s F n) = false.
   Proof.
-    intros HF Himp HK E Hd. pose proof (closest_allowed_in dk roots s n F Himp HK HF) as A. rewrite E in A.
+    intros HF Himp HK E Hd. pose proof (closest_with_allowed_in dk roots s n None F Himp HK HF) as A.
+    unfold closest in E. change (flt_of None) with (fun _ : fdef => true) in A. rewrite E in A.
     pose proof (allowed_in_none_all_empty _ A) as Hall.
     destruct (existsb (fun C => C d) (providers dk roots s F n)) eqn:X; [|reflexivity].
-    apply existsb_exists in X as [C [Hi Hc]]. specialize (Hall C Hi).
-    pose proof (proj1 (class_empty_true s n C) Hall d Hd) as Hf. rewrite Hf in Hc. discriminate.
+    apply existsb_exists in X as [C [Hi Hc]].
+    assert (Hi' : In (without None C) (map (without None) (providers dk roots s F n))) by (apply in_map; exact Hi).
+    specialize (Hall _ Hi').
+    pose proof (proj1 (class_empty_true s n (without None C)) Hall d Hd) as Hf.
+    unfold without in Hf. rewrite Hc in Hf. discriminate.
+  Qed.
+
+  (** whatever the cascade returns passes the filter *)
+  Lemma closest_with_flt flt F d : closest_with dk roots s flt F n = Some d -> flt d = true.
+  Proof.
+    unfold closest_with.
+    destruct (defs_named s n) as [|x0 l0] eqn:Edn; [discriminate|]. rewrite <- Edn.
+    assert (Hlb : forall m d0, last_binding flt (defs_named s n) m = Some d0 -> flt d0 = true).
+    { intros m d0. unfold last_binding.
+      destruct (max_by_key d_line (filter (fun d1 => path_eqb (d_file d1) m) (defs_named s n))) as [d1|]; [|discriminate].
+      destruct (flt d1) eqn:Ef; [|discriminate]. now intros [= <-]. }
+    destruct (last_binding flt (defs_named s n) F) as [d0|] eqn:El.
+    { intros [= <-]. eapply Hlb; eauto. }
+    destruct F as [|f dir]; [discriminate|].
+    destruct (first_some (conftest_step dk roots s flt (defs_named s n) n) (ancestors dir)) as [d0|] eqn:Ew.
+    { intros [= <-]. apply first_some_some in Ew as [dir0 [_ Es]]. unfold conftest_step in Es.
+      destruct (last_binding flt (defs_named s n) (conftest_py :: dir0)) as [d1|] eqn:El1.
+      - injection Es as <-. eapply Hlb; eauto.
+      - destruct ((disk_file dk (conftest_py :: dir0) || in_cache s (conftest_py :: dir0))
+                  && is_imported dk roots s n (conftest_py :: dir0)); [|discriminate].
+        apply find_some in Es. tauto. }
+    destruct (find (fun d0 => d_plugin d0 && negb (d_third d0) && flt d0) (defs_named s n)) as [d0|] eqn:Ep.
+    { intros [= <-]. apply find_some in Ep as [_ Hp]. apply andb_prop in Hp. tauto. }
+    intros Et. apply find_some in Et as [_ Ht]. apply andb_prop in Ht. tauto.
+  Qed.
+
+  (** the self-named parameter never resolves to the fixture that declares it *)
+  Theorem closest_excluding_never_self F x :
+    closest_excluding dk roots s F n x <> Some x.
+  Proof.
+    unfold closest_excluding. intros E. apply closest_with_flt in E.
+    rewrite fdef_eqb_refl in E. discriminate.
   Qed.
 End Allowed.
